@@ -173,6 +173,17 @@ func UsesTypeParams(f *ast.File) bool {
 			if n.Type != nil {
 				typePos(n.Type)
 			}
+		case *ast.ArrayType:
+			typePos(n.Elt) // make([]weak.Pointer[T], n): a type literal anywhere has its element in type position
+		case *ast.MapType:
+			typePos(n.Key)
+			typePos(n.Value)
+		case *ast.ChanType:
+			typePos(n.Value)
+		case *ast.Ellipsis:
+			if n.Elt != nil {
+				typePos(n.Elt)
+			}
 		case *ast.IndexListExpr:
 			found = true
 		case *ast.IndexExpr:
@@ -238,6 +249,7 @@ type CmpOpts struct {
 	Positions bool // compare token.Pos values (both sides parsed from the same text with base 1)
 	Comments  bool // compare *ast.CommentGroup fields (Doc, Comment)
 	ModParens bool // strip *ast.ParenExpr on both sides before comparing expressions
+	NoPos     bool // ignore token.Pos values entirely (not even valid/invalid): trees built without positions
 	// FuncPosLoose: go/parser (>= go1.18?) leaves FuncType.Func = NoPos for interface methods exactly as the fork does;
 	// nothing is loosened at present.
 }
@@ -337,6 +349,9 @@ func diff(a, b reflect.Value, path string, o CmpOpts) string {
 		return ""
 	default:
 		if a.Type() == posType {
+			if o.NoPos {
+				return ""
+			}
 			if !o.Positions {
 				// still distinguish "no position" from "some position" where it carries structure
 				// (Lparen of GenDecl, Rparen/Ellipsis of CallExpr ...): valid vs invalid
@@ -409,10 +424,32 @@ func GoRootSrc() string {
 
 // ---------------------------------------------------------------- recorded finding classes (see known_findings.json)
 
+// leftmostIndexes: the leftmost operand of e is an index or slice expression (`a[0] + 1`, `a[1:].f`)
+func leftmostIndexes(e ast.Expr) bool {
+	for {
+		switch x := e.(type) {
+		case *ast.IndexExpr, *ast.SliceExpr:
+			return true
+		case *ast.BinaryExpr:
+			e = x.X
+		case *ast.CallExpr:
+			e = x.Fun
+		case *ast.SelectorExpr:
+			e = x.X
+		case *ast.TypeAssertExpr:
+			e = x.X
+		default:
+			return false
+		}
+	}
+}
+
 // ForkTreeClass inspects the fork's node list for the constructs behind the recorded C24 findings:
 //
 //	"expr-block"            a `{ ... }` block accepted as an operand (returned as UnaryExpr{Op: etoken.MACRO, X: FuncLit});
 //	                        any unary/binary operator that is not a Go token is reported as this class too
+//	"switch-body-statement" a statement that is not a case clause directly inside a switch body (patch "support switch foo { ~,{bar} }")
+//	"array-length-starts-with-index-expression"  `type T [a[0]]int`: go/parser >= 1.18 takes `[a[` for a type parameter list
 //	"ellipsis-array-field"  a named parameter/result/receiver/field whose type is `[...]T` (go/parser >= 1.18 rejects it
 //	                        while parsing the parameter/field; the go1.10-era fork leaves it to the type checker)
 func ForkTreeClass(nodes []ast.Node) string {
@@ -430,6 +467,22 @@ func ForkTreeClass(nodes []ast.Node) string {
 			case *ast.BinaryExpr:
 				if x.Op > token.TILDE {
 					cls = "expr-block"
+				}
+			case *ast.SwitchStmt:
+				for _, st := range x.Body.List {
+					if _, ok := st.(*ast.CaseClause); !ok && cls == "" {
+						cls = "switch-body-statement"
+					}
+				}
+			case *ast.TypeSwitchStmt:
+				for _, st := range x.Body.List {
+					if _, ok := st.(*ast.CaseClause); !ok && cls == "" {
+						cls = "switch-body-statement"
+					}
+				}
+			case *ast.TypeSpec:
+				if at, ok := x.Type.(*ast.ArrayType); ok && at.Len != nil && cls == "" && leftmostIndexes(at.Len) {
+					cls = "array-length-starts-with-index-expression"
 				}
 			case *ast.Field:
 				if len(x.Names) > 0 {
@@ -474,4 +527,85 @@ func CommentAfterMultilineToken(src []byte) bool {
 		}
 		endLine = -1
 	}
+}
+
+// ---------------------------------------------------------------- C25 finding classes (by-design normalisations of go/printer)
+
+// HasExplicitEmptyStmt: a statement list contains an explicit empty statement `;` (the printer never prints it).
+func HasExplicitEmptyStmt(n ast.Node) bool {
+	found := false
+	chk := func(l []ast.Stmt) {
+		for _, s := range l {
+			if e, ok := s.(*ast.EmptyStmt); ok && !e.Implicit {
+				found = true
+			}
+		}
+	}
+	ast.Inspect(n, func(x ast.Node) bool {
+		switch x := x.(type) {
+		case *ast.BlockStmt:
+			chk(x.List)
+		case *ast.CaseClause:
+			chk(x.Body)
+		case *ast.CommClause:
+			chk(x.Body)
+		case *ast.LabeledStmt:
+			if e, ok := x.Stmt.(*ast.EmptyStmt); ok && !e.Implicit {
+				found = true
+			}
+		}
+		return !found
+	})
+	return found
+}
+
+// HasEmptyBodyAfterMultilineSignature: a function declaration or literal with an empty body whose signature contains a
+// struct or interface type literal with at least one field/method (the printer breaks such a signature over several
+// lines; `{}` then becomes `{` newline `}` when the printed text is printed again).
+func HasEmptyBodyAfterMultilineSignature(n ast.Node) bool {
+	found := false
+	multi := func(ft *ast.FuncType) bool {
+		m := false
+		ast.Inspect(ft, func(x ast.Node) bool {
+			switch x := x.(type) {
+			case *ast.StructType:
+				if x.Fields != nil && len(x.Fields.List) > 0 {
+					m = true
+				}
+			case *ast.InterfaceType:
+				if x.Methods != nil && len(x.Methods.List) > 0 {
+					m = true
+				}
+			case *ast.FuncLit:
+				m = true // a function literal inside the signature (array length expression) is printed over several lines too
+			}
+			return !m
+		})
+		return m
+	}
+	ast.Inspect(n, func(x ast.Node) bool {
+		switch x := x.(type) {
+		case *ast.FuncDecl:
+			if x.Body != nil && len(x.Body.List) == 0 && (multi(x.Type) || (x.Recv != nil && multi(&ast.FuncType{Params: x.Recv}))) {
+				found = true
+			}
+		case *ast.FuncLit:
+			if x.Body != nil && len(x.Body.List) == 0 && multi(x.Type) {
+				found = true
+			}
+		}
+		return !found
+	})
+	return found
+}
+
+// MethodWithoutReceiver: go/parser accepts `func () m() {}` (empty receiver list; the error is the type checker's), which is
+// not valid Go: the receiver section must declare exactly one parameter.
+func MethodWithoutReceiver(f *ast.File) bool {
+	for _, d := range f.Decls {
+		if fd, ok := d.(*ast.FuncDecl); ok && fd.Recv != nil && len(fd.Recv.List) != 1 {
+			return true
+		}
+	}
+	return false
 }
